@@ -590,6 +590,7 @@ def thorough(ctx):
 def mutants():
     from ..selftest import TextMutant as T
     return [
+        T("attrname-unicode-lower", REL, "            self.currentToken[\"data\"][-1][0] = (\n                self.currentToken[\"data\"][-1][0].translate(asciiUpper2Lower))", "            self.currentToken[\"data\"][-1][0] = self.currentToken[\"data\"][-1][0].lower()", "C02.6"),
         T("double-escape-end-case", REL,
           "            if self.temporaryBuffer.lower() == \"script\":\n                self.state = self.scriptDataEscapedState",
           "            if self.temporaryBuffer == \"script\":\n                self.state = self.scriptDataEscapedState", "C02.5"),
